@@ -144,6 +144,7 @@ def options(scratch):
 
 class Check(CheckBase):
     property_id = 'C19'
+    evaluations_counter = 'invocations'
     level = 'exploration'
     rule = ('the program entry point replicat.__main__.main() is run with freshly imported modules for every cell of the lattice '
             '(option x subset of the sources {command line, environment variable, selected profile, defaults section} in which the '
